@@ -74,9 +74,37 @@ def confirm(pid, x):
     return meta_out
 
 
-if __name__ == '__main__':
+def confirm_dir(name):
+    """re-confirm a (rebased) seed kept under /verif/seeded/<name> against /repo HEAD"""
+    d = '%s/%s' % (OUT, name)
+    wt = '/tmp/confirm_%s' % name
+    sh('git -C /repo worktree remove --force %s' % wt)
+    sh('git -C /repo worktree add -q --detach %s HEAD' % wt)
+    head = sh('git -C %s rev-parse --short HEAD' % wt).stdout.strip()
+    ok_apply = sh('git -C %s apply --check %s/patch.diff' % (wt, d)).returncode == 0
+    rc0, out0 = demo(wt, d + '/demo.py')
+    sh('git -C %s apply %s/patch.diff' % (wt, d))
+    rc1, out1 = demo(wt, d + '/demo.py')
+    t = sh('/tmp/seed/run_tests.sh %s' % wt)
+    ok_tests = 'BASELINE-OK' in t.stdout
+    sh('git -C /repo worktree remove --force %s' % wt)
+    sh('rm -f /tmp/seed/junit.*')
+    m = json.load(open(d + '/meta.json'))
+    m['confirmed'] = bool(ok_apply and rc0 == 0 and rc1 != 0 and ok_tests)
+    m['confirmed_on_repaired_tree'] = {'head': head, 'applies': ok_apply, 'demo_clean_rc': rc0, 'demo_patched_rc': rc1,
+                                       'demo_patched_tail': out1[-300:], 'baseline_with_patch': 'BASELINE-OK' if ok_tests else t.stdout[-300:]}
+    json.dump(m, open(d + '/meta.json', 'w'), indent=1)
+    return m['confirmed'], rc0, rc1, ok_tests
+
+
+if __name__ == '__main__' and sys.argv[1:2] == ['--dirs']:
+    for name in sys.argv[2:]:
+        print(name, confirm_dir(name), flush=True)
+elif __name__ == '__main__':
     for pid in sys.argv[1:]:
         for x in 'AB':
             r = confirm(pid, x)
             if r is not None:
                 print(pid, x, 'confirmed=%s' % r.get('confirmed'), flush=True)
+
+
